@@ -268,7 +268,7 @@ class GlenEstimator(SobolEstimator):
         var_c = [np.var(ci) for ci in replication_c]
 
         stis = [
-            1.0 - (1. / (nb_design - 1.) * np.sum((sampling_a - mu_a) *
+            1.0 - (1. / nb_design * np.sum((sampling_a - mu_a) *
                   (replication_c[i] - mu_c[i])) / (var_a * var_c[i])**0.5)
             for i in range(nb_dim)
         ]
